@@ -562,6 +562,22 @@ func apiReentrancy(t *testing.T, h *H) {
 	}
 	time.Sleep(500 * time.Millisecond)
 	c.Emit("e", 6) // the handlers registered in the connection handler are in place by now
+	// an application that recovers the documented panic for an invalid ack function goes on using the socket
+	pBadAckC := newProbe("client: Emit with an invalid ack function panics (documented); after recover, Emit with a valid ack function")
+	pBadAckS := newProbe("server: Emit with an invalid ack function panics (documented); after recover, Emit with a valid ack function")
+	badAck := func(p *probe, emit func(v ...any)) {
+		go run(p, func() {
+			func() {
+				defer func() { recover() }()
+				emit(1, func() int { return 0 })
+			}()
+			emit(2, func(v int) {})
+		})
+	}
+	badAck(pBadAckC, func(v ...any) { c.Emit("q", v...) })
+	if ss != nil {
+		badAck(pBadAckS, func(v ...any) { ss.Emit("q", v...) })
+	}
 	time.Sleep(1500 * time.Millisecond)
 	if ss != nil {
 		go ss.Disconnect(true)
@@ -575,7 +591,7 @@ func apiReentrancy(t *testing.T, h *H) {
 	}
 	for _, p := range probes {
 		h.Eval()
-		desc := "handler re-entrancy: " + p.name
+		desc := "scripted program: " + p.name
 		h.NonTrivial(desc)
 		h.Dist("api.reentrancy")
 		switch {
@@ -586,7 +602,7 @@ func apiReentrancy(t *testing.T, h *H) {
 				h.Note("re-entrancy probe not reached: " + p.name)
 			}
 		case !p.done.Load():
-			h.Violation("C16", "an exported operation called from inside a handler never returns", desc, "the handler was entered and had not returned when the scenario ended (at least 3 s later)")
+			h.Violation("C16", "an exported operation never returns", desc, "the probe was entered and had not returned when the scenario ended (at least 3 s later)")
 		}
 	}
 }
